@@ -306,6 +306,22 @@ def r_feature(ctx, rule='R-FEATURE'):
                     for y in walk(e[1]):
                         if y[0] == 'call' and '__is_feature_detected::' in y[1]:
                             detected.add(y[1].rsplit('::', 1)[1].replace('_', '.') if y[1].rsplit('::', 1)[1] in ('sse4_1', 'sse4_2') else y[1].rsplit('::', 1)[1])
+            # ... or established on every *feasible* path: the detection may sit in a helper (virtually inlined) whose boolean
+            # answer is tested by the caller -- then the call is unreachable once the true edge of the detection is cut
+            for b in f.live_blocks():
+                t = f.blocks[b]['term']
+                if t['k'] != 'call' or '__is_feature_detected::' not in (t.get('callee') or ''):
+                    continue
+                feat = t['callee'].rsplit('::', 1)[1]
+                feat = feat.replace('_', '.') if feat in ('sse4_1', 'sse4_2') else feat
+                if feat in detected or t['t'] < 0:
+                    continue
+                sw = t['t']
+                for x in f.succ(sw):
+                    e = paths.edge_cond(f, sw, x)
+                    if e and e[0] == 'bool' and e[2] and any(y[0] == 'call' and y[1] == t['callee'] for y in walk(e[1])):
+                        if c.bb not in paths.feasible_reach(f, 0, avoid=[x]):
+                            detected.add(feat)
             # a detected feature implies the features it implies
             implied = set(detected)
             IMPL = {'avx2': {'avx'}, 'avx': {'sse4.2'}, 'sse4.2': {'sse4.1'}, 'sse4.1': {'ssse3'}, 'ssse3': {'sse3'}, 'sse3': {'sse2'}, 'sse2': {'sse'}, 'fma': {'avx'}}
